@@ -153,6 +153,12 @@ def run(tier='quick'):
     # ---- K4 ------------------------------------------------------------------------------
     chain_triggers(prog, chk, K4)
     chain_trigger_siblings(prog, chk, K4)
+    from .. import domains
+    domains.apply_rule(prog, eff, chk, K4, gens=(2,), trigger_tables=('playlist', 'playlistentity'), library=False)
+    K5 = chk.rule('K5', 'identifier domains of C++ values: the id() of a crate / track handle is bound only against '
+                        'columns naming that kind of row, directly or through the parameters of the storage / table '
+                        'functions it is passed to (spec/domains.json)', floor=100)
+    domains.apply_bind_rule(prog, cg, eff, chk, K5)
     return chk.finish('value-flow interpretation of the membership operations of both implementations '
                       '(id kinds of bound values, event order), reference graph and triggers read from the DDL '
                       'of every schema version')
